@@ -177,7 +177,7 @@ func c13(c *Check) {
 	}
 	c.Extra["key_families"] = names
 
-	c.Rule("C13/reader-tokenisation", "a reader that tokenises iterator keys with an unbounded strings.Split on \"/\" must not range over a family with a binary (big-endian height) component: a 0x2f byte inside the height changes the element count / positions", 4)
+	c.Rule("C13/reader-tokenisation", "a reader that tokenises iterator keys with an unbounded strings.Split on \"/\" must not range over a family with a binary (big-endian height) component: a 0x2f byte inside the height changes the element count / positions", 2)
 	tokenisationRule(c, "C13/reader-tokenisation", fams)
 
 	c.Rule("C13/derived-indexes-rebuilt-completely", "the aggregate index families are not exported but re-derived on import: InitGenesis must index every imported pair by its contract address and by ALL of its denominations under the pair's id (shared with C12/three-way-write)", 2)
